@@ -10,31 +10,23 @@ PARAMETERS here (`Engines`); Layer B (`AGH/Model/FilterRules.lean`) instantiates
 them from rule text.  Everything the pipeline itself does is transcribed,
 including quirks (see comments marked QUIRK).
 
+The checker chain of `CheckHost` is complete up to safe search: legacy
+rewrites (the C06 model `AGH/Model/Rewrites.lean`, composed here), the hosts
+container, the rule engines, blocked services, safe browsing, parental.  The
+verdicts of the safe-browsing / parental checkers (`Checker.Check`, C19's
+business) and `netutil.IPFromReversedAddr` are oracle parameters like the rule
+engines.
+
 Not modelled (the harness keeps them switched off and the theorems say so):
-legacy rewrites, the system hosts container, safe browsing / parental /
-safe search checkers, `$dnsrewrite`, DHCP hosts, DDR, DNSSEC flags, ipset, the
-dnsproxy cache.  Names are ASCII (Go lower-cases with `strings.ToLower`).
+safe search, `$dnsrewrite`, DHCP hosts, DDR, DNSSEC flags, ipset.  Names are
+ASCII (Go lower-cases with `strings.ToLower`).
 -/
-import AGH.Model.Bytes
+import AGH.Model.NetIP
+import AGH.Model.Rewrites
 namespace AGH.Filter
 open AGH AGH.Bytes
 
 /-! ## Basic data -/
-
-/-- A valid `netip.Addr` without zone.  `str` is Go's `String()` of the address
-when it came from an upstream record (an oracle, used only as the host name
-handed to the rule engines); it never takes part in comparisons or output. -/
-structure IP where
-  v6 : Bool
-  val : Nat
-  str : Bytes := []
-  deriving Repr, DecidableEq
-
-/-- `netip.Addr` equality (no zones; an IPv4-mapped IPv6 address differs from the IPv4 one). -/
-def IP.same (a b : IP) : Bool := a.v6 == b.v6 && a.val == b.val
-
-def ip4Zero : IP := { v6 := false, val := 0 }
-def ip6Zero : IP := { v6 := true, val := 0 }
 
 inductive Mode where
   | default | nullIP | customIP | nxdomain | refused
@@ -60,6 +52,22 @@ structure ClientConf where
   /-- the client's own blocked-services schedule contains now -/
   schedNow : Bool
   services : List Service
+  /-- own `safebrowsing_enabled` / `parental_enabled` (read when `useOwnSettings`) -/
+  safeBrowsing : Bool := false
+  parental : Bool := false
+  deriving Repr
+
+/-- one record of the hosts container (`hostsfile.DefaultStorage.Add`) -/
+structure HostsRec where
+  addr : IP
+  names : List Bytes
+  deriving Repr
+
+/-- `safebrowsing_block_host` / `parental_block_host`: empty, an address, or a host name -/
+inductive BlockHost where
+  | empty
+  | ip (a : IP)
+  | name (n : Bytes)
   deriving Repr
 
 structure Conf where
@@ -79,15 +87,26 @@ structure Conf where
   services : List Service
   client : Option ClientConf
   clientIP : IP
+  /-- the legacy rewrite table after `prepareRewrites` -/
+  rewrites : List C06.Entry := []
+  /-- the hosts container, in insertion order -/
+  hosts : List HostsRec := []
+  /-- global `safebrowsing_enabled` / `parental_enabled` -/
+  sbEnabled : Bool := false
+  parentalEnabled : Bool := false
+  sbHost : BlockHost := .empty
+  parentalHost : BlockHost := .empty
   deriving Repr
 
-/-- `filtering.Settings` as far as the rule checkers read it. -/
+/-- `filtering.Settings` as far as the checkers read it. -/
 structure Setts where
   protection : Bool
   filtering : Bool
   clientName : Bytes
   clientIP : IP
   services : List Service
+  safeBrowsing : Bool := false
+  parental : Bool := false
   deriving Repr
 
 /-- `urlfilter.DNSRequest` -/
@@ -106,19 +125,34 @@ inductive EngRes where
   | hosts (v4 v6 : List IP)
   deriving Repr
 
+/-- Everything external the checker chain consults. -/
 structure Engines where
   allow : DNSReq → Option EngRes
   block : DNSReq → Option EngRes
   /-- some rule of the service matches the host (`rule.Match(NewRequestForHostname host)`) -/
   svc : Service → Bytes → Bool
+  /-- `safeBrowsingChecker.Check(host)` / `parentalControlChecker.Check(host)` (hash-prefix lookups, C19) -/
+  sb : Bytes → Bool := fun _ => false
+  parental : Bytes → Bool := fun _ => false
+  /-- `netutil.IPFromReversedAddr(host)`, `none` = error -/
+  arpa : Bytes → Option IP := fun _ => none
+  /-- the sorted permutation `slices.SortFunc` produces in `findRewrites` for a looked-up name -/
+  srt : Bytes → C06.Sorter := fun _ => C06.stable
 
 inductive Reason where
-  | notFound | allowList | blockList | blockedService
+  | notFound | allowList | blockList | safeBrowsing | parental | blockedService | rewritten | autoHosts
   deriving DecidableEq, Repr
 
 /-- Go's numeric `filtering.Reason`. -/
 def Reason.code : Reason → Nat
-  | .notFound => 0 | .allowList => 1 | .blockList => 3 | .blockedService => 8
+  | .notFound => 0 | .allowList => 1 | .blockList => 3 | .safeBrowsing => 4 | .parental => 5
+  | .blockedService => 8 | .rewritten => 9 | .autoHosts => 10
+
+/-- a value of a hosts-container answer -/
+inductive HostVal where
+  | addr (ip : IP)
+  | name (n : Bytes)
+  deriving Repr
 
 structure Result where
   reason : Reason := .notFound
@@ -126,6 +160,11 @@ structure Result where
   /-- the non-zero `ResultRule.IP`s, in order -/
   ips : List IP := []
   svcName : Bytes := []
+  /-- `CanonName` and `IPList` of a legacy rewrite -/
+  canon : Bytes := []
+  ipList : List IP := []
+  /-- `DNSRewriteResult.Response[qtype]` of a hosts-container hit -/
+  hostVals : List HostVal := []
   deriving Repr
 
 def Result.empty : Result := {}
@@ -142,6 +181,7 @@ def tCNAME : Nat := 5
 def tSOA : Nat := 6
 def tAAAA : Nat := 28
 def tHTTPS : Nat := 65
+def tPTR : Nat := 12
 
 inductive SvcParam where
   | hint4 (ips : List IP)
@@ -155,6 +195,7 @@ inductive RData where
   | cname (target : Bytes)
   | https (prio : Nat) (target : Bytes) (params : List SvcParam)
   | soa (mbox : Bytes)
+  | ptr (target : Bytes)
   | other (typ : Nat) (data : Bytes)
   deriving Repr, DecidableEq
 
@@ -181,6 +222,7 @@ structure Query where
 def rcSuccess : Nat := 0
 def rcNXDomain : Nat := 3
 def rcRefused : Nat := 5
+def rcServFail : Nat := 2
 
 /-! ## Settings (processInitial → clientRequestFilteringSettings) -/
 
@@ -200,13 +242,15 @@ def settings (c : Conf) : Setts :=
   match c.client with
   | none =>
     { protection := protectionEnabled c, filtering := c.filtering, clientName := [],
-      clientIP := c.clientIP, services := svc0 }
+      clientIP := c.clientIP, services := svc0, safeBrowsing := c.sbEnabled, parental := c.parentalEnabled }
   | some cl =>
     let filt := if cl.useOwnSettings then cl.filtering else c.filtering
     -- `setts.BlockedServices != nil` replaces the global services
     let svc := if cl.useOwnBlockedServices then (if cl.schedNow then [] else cl.services) else svc0
     { protection := protectionEnabled c, filtering := filt, clientName := cl.name,
-      clientIP := c.clientIP, services := svc }
+      clientIP := c.clientIP, services := svc,
+      safeBrowsing := if cl.useOwnSettings then cl.safeBrowsing else c.sbEnabled,
+      parental := if cl.useOwnSettings then cl.parental else c.parentalEnabled }
 
 /-! ## filtering.matchHost and friends -/
 
@@ -253,18 +297,81 @@ def matchBlockedServices (e : Engines) (host : Bytes) (s : Setts) : Result :=
     | some sv => { reason := .blockedService, isFiltered := true, svcName := sv.name }
     | none => {}
 
-/-- `(*DNSFilter).CheckHost` with the unmodelled checkers absent. -/
-def checkHost (e : Engines) (host : Bytes) (qtype : Nat) (s : Setts) : Except Fault Result :=
+/-- `ipsFromRules`: unique addresses, first occurrence kept. -/
+def dedupIPs : List IP → List IP → List IP
+  | [], acc => acc.reverse
+  | ip :: rest, acc => if acc.any (IP.same ip) then dedupIPs rest acc else dedupIPs rest (ip :: acc)
+
+/-- `processRewrites` (the C06 model) as a `filtering.Result`; addresses come
+back as Go's `String()` text and are re-read with the `netip.ParseAddr` model -/
+def rewriteResult (e : Engines) (c : Conf) (host : Bytes) (qtype : Nat) : Result :=
+  let o := C06.processRewritesWith e.srt c.rewrites host qtype
+  if o.rewritten then { reason := .rewritten, canon := o.canon, ipList := o.ips.filterMap parseAddr } else {}
+
+/-- `DefaultStorage.ByName`: the addresses of the records naming `host`, first occurrence kept -/
+def hostsByName (recs : List HostsRec) (host : Bytes) : List IP :=
+  dedupIPs ((recs.filter (fun r => r.names.any (fun n => lower n == host))).map (·.addr)) []
+
+def dedupNames : List Bytes → List Bytes → List Bytes
+  | [], acc => acc.reverse
+  | n :: rest, acc => if acc.any (fun m => lower m == lower n) then dedupNames rest acc else dedupNames rest (n :: acc)
+
+/-- `DefaultStorage.ByAddr`: the names recorded for the address (as written), one per lower-cased form -/
+def hostsByAddr (recs : List HostsRec) (a : IP) : List Bytes :=
+  dedupNames ((recs.filter (fun r => r.addr.same a)).flatMap (·.names)) []
+
+/-- `matchSysHosts` / `hostsRewrites`.  QUIRK: not gated by protection. -/
+def matchSysHosts (e : Engines) (c : Conf) (host : Bytes) (qtype : Nat) (s : Setts) : Result :=
+  if !s.filtering then {}
+  else if qtype = tA ∨ qtype = tAAAA then
+    let addrs := hostsByName c.hosts host
+    if addrs.isEmpty then {}
+    else { reason := .autoHosts,
+           hostVals := (addrs.filter (fun ip => ip.v6 == (qtype == tAAAA))).map HostVal.addr }
+  else if qtype = tPTR then
+    match e.arpa host with
+    | none => {}
+    | some a =>
+      let names := hostsByAddr c.hosts a
+      if names.isEmpty then {} else { reason := .autoHosts, hostVals := names.map HostVal.name }
+  else {}
+
+/-- `checkSafeBrowsing` -/
+def checkSafeBrowsing (e : Engines) (host : Bytes) (s : Setts) : Result :=
+  if s.protection && s.safeBrowsing && e.sb host then { reason := .safeBrowsing, isFiltered := true } else {}
+
+/-- `checkParental` -/
+def checkParental (e : Engines) (host : Bytes) (s : Setts) : Result :=
+  if s.protection && s.parental && e.parental host then { reason := .parental, isFiltered := true } else {}
+
+/-- The host checkers after the rule engines: blocked services, safe browsing,
+parental — first match wins (safe search is off). -/
+def checkAfterRules (e : Engines) (h : Bytes) (s : Setts) : Result :=
+  let r2 := matchBlockedServices e h s
+  if r2.reason ≠ .notFound then r2
+  else
+    let r3 := checkSafeBrowsing e h s
+    if r3.reason ≠ .notFound then r3
+    else
+      let r4 := checkParental e h s
+      if r4.reason ≠ .notFound then r4 else {}
+
+/-- `(*DNSFilter).CheckHost`: legacy rewrites first (only when filtering is on
+for the client, and only a result that is still `Rewritten` counts), then the
+host checkers in their order, first match wins. -/
+def checkHost (e : Engines) (c : Conf) (host : Bytes) (qtype : Nat) (s : Setts) : Except Fault Result :=
   if host = [] then .ok {}
   else
     let h := lower host
-    match matchHost e h qtype s with
-    | .error f => .error f
-    | .ok r =>
-      if r.reason ≠ .notFound then .ok r
+    let rw : Result := if s.filtering then rewriteResult e c h qtype else {}
+    if rw.reason = .rewritten then .ok rw
+    else
+      let r0 := matchSysHosts e c h qtype s
+      if r0.reason ≠ .notFound then .ok r0
       else
-        let r2 := matchBlockedServices e h s
-        if r2.reason ≠ .notFound then .ok r2 else .ok {}
+        match matchHost e h qtype s with
+        | .error f => .error f
+        | .ok r => if r.reason ≠ .notFound then .ok r else .ok (checkAfterRules e h s)
 
 /-! ## msg.go -/
 
@@ -289,11 +396,6 @@ def msgNODATA (c : Conf) (q : Query) : Msg := { reply q rcSuccess with ns := gen
 
 def ansA (c : Conf) (q : Query) (ip : Option IP) : RR := { name := q.name, ttl := c.ttl, data := .a ip }
 def ansAAAA (c : Conf) (q : Query) (ip : Option IP) : RR := { name := q.name, ttl := c.ttl, data := .aaaa ip }
-
-/-- `ipsFromRules`: unique addresses, first occurrence kept. -/
-def dedupIPs : List IP → List IP → List IP
-  | [], acc => acc.reverse
-  | ip :: rest, acc => if acc.any (IP.same ip) then dedupIPs rest acc else dedupIPs rest (ip :: acc)
 
 /-- `genAnswersWithIPv4s`: nil as soon as one address is not IPv4. -/
 def answersV4 (c : Conf) (q : Query) (ips : List IP) : List RR :=
@@ -431,34 +533,91 @@ def shortCircuit (c : Conf) (q : Query) : Option Outcome :=
   else if q.name = healthcheckFQDN then some (.done (reply q rcSuccess) [] none)
   else none
 
-/-- processFilteringBeforeRequest, processUpstream, processFilteringAfterResponse,
-processQueryLogsAndStats. -/
-def handleMain (e : Engines) (c : Conf) (u : Upstream) (q : Query) : Outcome :=
+/-- `dns.Fqdn` (no escaped dots) -/
+def fqdn (n : Bytes) : Bytes := if n.getLast? = some 46 then n else n ++ [46]
+
+/-- `getCNAMEWithIPs`: an optional CNAME owned by the queried name, then the
+addresses of the requested family owned by the canonical name. -/
+def cnameWithIPs (c : Conf) (q : Query) (ips : List IP) (cname : Bytes) : Msg :=
+  let q' : Query := if cname = [] then q else { q with name := fqdn cname }
+  let cn : List RR :=
+    if cname = [] then [] else [{ name := q.name, ttl := c.ttl, data := .cname (fqdn cname) }]
+  let addrs : List RR :=
+    if q.qtype = tA then answersV4 c q' ips
+    else if q.qtype = tAAAA then (ips.filter (·.v6)).map (fun ip => ansAAAA c q' (some ip))
+    else []
+  { reply q rcSuccess with answer := cn ++ addrs }
+
+/-- `filterDNSRewrite` for a hosts-container hit -/
+def hostsResponse (c : Conf) (q : Query) (vals : List HostVal) : Msg :=
+  { reply q rcSuccess with
+    answer := vals.map (fun v => match v with
+      | .addr ip => if q.qtype = tA then ansA c q (some ip) else ansAAAA c q (some ip)
+      | .name n => { name := q.name, ttl := c.ttl, data := .ptr (fqdn n) }) }
+
+/-- `genBlockedHost`: SERVFAIL without a block host, the block address, or the
+records the upstream returns for the block host name, re-owned by the queried name -/
+def genBlockedHost (c : Conf) (u : Upstream) (q : Query) (bh : BlockHost) : Msg × List Query :=
+  match bh with
+  | .empty => (reply q rcServFail, [])
+  | .ip a => (responseWithIPs c q [a], [])
+  | .name n =>
+    let q2 : Query := { name := fqdn n, qtype := q.qtype }
+    ({ reply q rcSuccess with answer := (u.exchange q2).answer.map (fun rr => { rr with name := q.name }) }, [q2])
+
+/-- `genDNSFilterMessage` including the safe-browsing / parental branches; the
+second component is what it asks the upstream -/
+def blockedMessage (c : Conf) (u : Upstream) (q : Query) (res : Result) : Msg × List Query :=
+  if (q.qtype = tA ∨ q.qtype = tAAAA ∨ q.qtype = tHTTPS) ∧ res.reason = .safeBrowsing then
+    genBlockedHost c u q c.sbHost
+  else if (q.qtype = tA ∨ q.qtype = tAAAA ∨ q.qtype = tHTTPS) ∧ res.reason = .parental then
+    genBlockedHost c u q c.parentalHost
+  else (genDNSFilterMessage c q res, [])
+
+/-- processUpstream + processFilteringAfterResponse for a request that was
+neither answered nor rewritten at the request stage. -/
+def forwardStage (e : Engines) (c : Conf) (u : Upstream) (q : Query) (res : Result) : Outcome :=
   let s := settings c
-  -- processFilteringBeforeRequest / filterDNSRequest
-  match checkHost e (trimDot q.name) q.qtype s with
+  let resp := u.exchange q
+  if res.reason = .allowList ∨ !s.protection ∨ !s.filtering then
+    .done resp [q] (some { reason := res.reason, isFiltered := false, svcName := res.svcName, origAnswer := none })
+  else
+    match filterAnswers e c s resp.answer with
+    | .error _ => .err
+    | .ok (ans', some r) =>
+      .done (genDNSFilterMessage c q r) [q]
+        (some { reason := r.reason, isFiltered := true, svcName := r.svcName, origAnswer := some ans' })
+    | .ok (ans', none) =>
+      .done { resp with answer := ans' } [q]
+        (some { reason := res.reason, isFiltered := false, svcName := res.svcName, origAnswer := none })
+
+/-- processFilteringBeforeRequest (filterDNSRequest's dispatch on the result),
+processUpstream, processFilteringAfterResponse, processQueryLogsAndStats. -/
+def handleMain (e : Engines) (c : Conf) (u : Upstream) (q : Query) : Outcome :=
+  match checkHost e c (trimDot q.name) q.qtype (settings c) with
   | .error _ => .err
   | .ok res =>
-    if res.isFiltered then
+    if res.reason = .rewritten ∧ res.canon ≠ [] ∧ res.ipList = [] then
+      -- isRewrittenCNAME: the canonical name is resolved instead; afterwards the original
+      -- question is restored and the CNAME record prepended; no response filtering
+      let q' : Query := { q with name := fqdn res.canon }
+      let resp := u.exchange q'
+      .done { resp with qname := q.name,
+                        answer := { name := q.name, ttl := c.ttl, data := .cname (fqdn res.canon) } :: resp.answer }
+        [q'] (some { reason := .rewritten, isFiltered := false, svcName := [], origAnswer := none })
+    else if res.isFiltered then
       -- the response is set; processUpstream does nothing; the after-response
       -- stage does nothing because the response is not from the upstream
-      .done (genDNSFilterMessage c q res) []
+      let (m, log) := blockedMessage c u q res
+      .done m log
         (some { reason := res.reason, isFiltered := true, svcName := res.svcName, origAnswer := none })
-    else
-      -- processUpstream
-      let resp := u.exchange q
-      -- processFilteringAfterResponse
-      if res.reason = .allowList ∨ !s.protection ∨ !s.filtering then
-        .done resp [q] (some { reason := res.reason, isFiltered := false, svcName := res.svcName, origAnswer := none })
-      else
-        match filterAnswers e c s resp.answer with
-        | .error _ => .err
-        | .ok (ans', some r) =>
-          .done (genDNSFilterMessage c q r) [q]
-            (some { reason := r.reason, isFiltered := true, svcName := r.svcName, origAnswer := some ans' })
-        | .ok (ans', none) =>
-          .done { resp with answer := ans' } [q]
-            (some { reason := res.reason, isFiltered := false, svcName := res.svcName, origAnswer := none })
+    else if res.reason = .rewritten then
+      .done (cnameWithIPs c q res.ipList res.canon) []
+        (some { reason := .rewritten, isFiltered := false, svcName := [], origAnswer := none })
+    else if res.reason = .autoHosts then
+      .done (hostsResponse c q res.hostVals) []
+        (some { reason := .autoHosts, isFiltered := false, svcName := [], origAnswer := none })
+    else forwardStage e c u q res
 
 /-- `handleDNSRequest` -/
 def handle (e : Engines) (c : Conf) (u : Upstream) (q : Query) : Outcome :=
